@@ -22,7 +22,7 @@ let parse_b toks : binput =
   | [ id; found; liq; lfound; kill; intok; ain; aout; intr; pin; din; pout; dout; lt; elt; emode; bramt; brden; first;
       t1; t2; white; dutch; english; pbal; cbal; stable; pacc; denin; cden; poolin; assetin; poolout; assetout; lend ] ->
     let b = { b_id = z_of_string id; b_found = bool_of_tok found; b_liquidated = bool_of_tok liq; b_lend_found = bool_of_tok lfound;
-              b_kill = bool_of_tok kill; b_interest_ok = bool_of_tok intok; b_amt_in = z_of_string ain; b_amt_out = z_of_string aout;
+              b_kill = bool_of_tok kill; b_interest_ok = (intok = "1"); b_interest_panic = (intok = "2"); b_amt_in = z_of_string ain; b_amt_out = z_of_string aout;
               b_interest = z_of_string intr; b_price_in = opt_price pin; b_dec_in = z_of_string din; b_price_out = opt_price pout;
               b_dec_out = z_of_string dout; b_liq_thr = z_of_string lt; b_eliq_thr = z_of_string elt; b_emode = bool_of_tok emode;
               b_bridged_amt = z_of_string bramt; b_bridged_denom = z_of_string brden; b_first_denom = z_of_string first;
@@ -101,6 +101,7 @@ let run (path : string) =
   let ext_expect : (BinNums.coq_Z * BinNums.coq_Z) option ref = ref None in
   let tracked : (string, track) Hashtbl.t = Hashtbl.create 16 in
   let tracked5 : (string, track) Hashtbl.t = Hashtbl.create 16 in
+  let kf6_ids : (string, unit) Hashtbl.t = Hashtbl.create 16 in
   let end_case () =
     if !case <> "" then begin
       incr cases;
@@ -144,7 +145,10 @@ let run (path : string) =
         (* the property's own hypotheses (whether or not the visit can complete): hypotheses + above threshold *)
         let hyp_unsafe = live_hyp_borrow i.x.b && i.unsafe && BinInt.Z.geb impl_batch (zi 1) in
         if hyp_unsafe then begin
-          let short = (i.v <> VSeize) && kf_C09_5 i.x.b in
+          let known6 = (i.v <> VSeize) && (i.x.b.b_interest_panic || not i.x.b.b_interest_ok) && kf_C09_6 i.x.b in
+          if known6 then bump "live:interest-update-fails-visit";
+          let short = (i.v <> VSeize) && (known6 || kf_C09_5 i.x.b) in
+          if known6 then Hashtbl.replace kf6_ids id ();
           (match Hashtbl.find_opt tracked5 id with
            | Some t -> t.age <- t.age + 1; if short then t.short <- true
            | None -> Hashtbl.replace tracked5 id { age = 1; n; m = n; c = 0; quiet = true; short; reported = false });
@@ -174,8 +178,12 @@ let run (path : string) =
         let ok = if t.quiet then holds_C09_live_borrow_quiet age (zi t.n) impl_batch else holds_C09_live_borrow age (zi t.m) (zi t.c) impl_batch in
         if not ok && t.short && not t.reported then begin
           t.reported <- true;
-          predfail ~case:!case ~step:!step ~pred:"holds_C09_live_borrow" ~kf:"kf_C09_5"
-            ~detail:(Printf.sprintf "borrow=%s_unsafe_with_every_hypothesis_for_%s_blocks_not_seized:_its_pool_is_short_of_the_recorded_collateral" id (zs age))
+          if Hashtbl.mem kf6_ids id then
+            predfail ~case:!case ~step:!step ~pred:"holds_C09_live_borrow" ~kf:"kf_C09_6"
+              ~detail:(Printf.sprintf "borrow=%s_unsafe_with_every_hypothesis_for_%s_blocks_not_seized:_its_interest_update_fails_at_every_visit" id (zs age))
+          else
+            predfail ~case:!case ~step:!step ~pred:"holds_C09_live_borrow" ~kf:"kf_C09_5"
+              ~detail:(Printf.sprintf "borrow=%s_unsafe_with_every_hypothesis_for_%s_blocks_not_seized:_its_pool_is_short_of_the_recorded_collateral" id (zs age))
         end) tracked5 in
   L.iter (fun line ->
       match tokens line with
@@ -184,7 +192,7 @@ let run (path : string) =
         case := id; kind := k; batch := z_of_string b;
         m_ids := []; m_liq := []; m_off0 := BinNums.Z0; m_off1 := BinNums.Z0; inputs := []; last_inputs := [];
         prev_s_ref := None; cur_s_ref := None; prev_w := None; last_op := "init"; step := 0; dead := false; seized_any := false;
-        Hashtbl.reset tracked; Hashtbl.reset tracked5; ext_expect := None;
+        Hashtbl.reset tracked; Hashtbl.reset tracked5; Hashtbl.reset kf6_ids; ext_expect := None;
         Buffer.clear sig_; Buffer.add_string sig_ (k ^ ":" ^ b ^ ";");
         bump ("batch=" ^ b); bump ("kind=" ^ (if S.length k >= 6 && S.sub k 0 6 = "bridge" then "bridge" else k))
       | _ when !dead -> ()
